@@ -388,10 +388,13 @@ def commands(ctx, f):
             tail = cur.orelse
             break
     ok_tail = len(tail) == 1 and isinstance(tail[0], ast.Raise)
+    # by value: the initial running mean of every sample type below TYPE_EOF (8 for unsigned bytes, 0x8000 for unsigned
+    # 16-bit words, 0 otherwise), however the dispatch is spelt
+    decided = _initial_means(ctx, R, f, type_consts, eof, consts)
     for t, v in sorted(type_consts.items()):
-        if v < eof:
+        if v < eof and not decided:
             ctx.check(classes.get(t, 0) == 1 or (classes.get(t, 0) == 0 and ok_tail), R, f, means[0],
-                      "%s has exactly one initial-mean class (or raises)" % t, "%s appears in %d initial-mean classes" % (t, classes.get(t, 0)))
+                      "%s has exactly one initial-mean class (or raises)" % t, "%s appears in %d initial-mean classes" % (t, classes.get(t, 0)), structural=True)
     # ftype >= TYPE_EOF rejected
     rej = [n for n in f.node.body if isinstance(n, ast.If) and isinstance(n.test, ast.Compare) and astq.is_name(n.test.left, "ftype")
            and isinstance(n.test.ops[0], ast.GtE) and n.body and isinstance(n.body[0], ast.Raise)]
@@ -469,6 +472,59 @@ def _branch_of(f, inner_cmd):
         if isinstance(n, ast.If) and _names_in_test(n.test, "cmd") == [inner_cmd]:
             return n.body
     return None
+
+
+def _initial_means(ctx, R, f, type_consts, eof, consts):
+    from .. import scenario as SC
+    prog = ctx.prog
+    disp = [n for n in f.node.body if isinstance(n, ast.If) and any(isinstance(x, ast.Assign) and astq.is_name(x.targets[0], "mean") for x in ast.walk(n))]
+    if len(disp) != 1:
+        return False
+    try:
+        ev = cc.body_eval(prog, f, [disp[0]])
+    except Exception:
+        return False
+    val = ev.env.get("mean")
+    if val is None:
+        return False
+    modq = f.module.name
+    want = {"TYPE_U8": 8, "TYPE_U16HL": 0x8000, "TYPE_U16LH": 0x8000}
+
+    def at(e, v):
+        def fn(x):
+            if x.op == "sym":
+                nm = x.args[0]
+                if nm == "ftype":
+                    return S.lift(v)
+                short = nm.rsplit(".", 1)[-1]
+                if nm.startswith(modq + ".") and short in consts and isinstance(consts[short], int):
+                    return S.lift(consts[short])
+                return None
+            r = SC.fold_membership(x)
+            return r
+        return SC.transform(e, fn)
+    what = "the running mean starts at 8 for unsigned bytes, 0x8000 for unsigned 16-bit words and 0 for every other sample type"
+    n_ok = 0
+    for t, v in sorted(type_consts.items()):
+        if not (isinstance(v, int) and v < eof):
+            continue
+        got = at(val, v)
+        rs = [at(g, v) for g, _ in ev.raises]
+        if not got.is_const and not all(r.is_const for r in rs):
+            return False
+        raised = any(r.is_const and S.truthy(r) for r in rs)
+        if any(not r.is_const for r in rs) or (not raised and not got.is_const):
+            return False
+        w = want.get(t, 0)
+        if raised:
+            ctx.bad(R, f, disp[0], "a stream of sample type %s (%d) is rejected where its running mean is set up, although the type is below TYPE_EOF" % (t, v), what)
+        elif int(got.value) != w:
+            ctx.bad(R, f, disp[0], "the running mean of sample type %s (%d) starts at %s, not %d" % (t, v, S.show(got), w), what)
+        else:
+            n_ok += 1
+    if n_ok:
+        ctx.ok(R, f.loc(disp[0]), what, "%d sample types evaluated" % n_ok)
+    return True
 
 
 def predictors(ctx, f):
